@@ -963,15 +963,13 @@ func (r *reader) pushToken(src []byte) {
 
 	token := r.makeToken(src)
 	size := len(token)
-	isSym := false
 	switch {
 	case size == 1 && (token[0] == 't' || token[0] == 'T'):
 		obj = True
 	case size == 3 && bytes.EqualFold([]byte("nil"), token):
 		obj = nil
 	default:
-		obj = Symbol(token)
-		isSym = true
+		obj = r.resolveToken(token)
 	}
 	if 0 < len(r.stack) {
 		switch r.stack[len(r.stack)-1] {
@@ -1036,9 +1034,6 @@ func (r *reader) pushToken(src []byte) {
 			}
 			return
 		}
-	}
-	if isSym {
-		obj = r.resolveToken(token)
 	}
 	if 0 < len(r.stack) {
 		r.stack = append(r.stack, obj)
